@@ -241,6 +241,14 @@ def run(ctx):
     for s, r in zip(scripts, reals):
         oracle(ctx, s, r)
         W.refused_leaves_no_trace(ctx, s, r, "c03")
+    # one sender, several recipients (own mute flag / drop counter / header version each): the burst due in a frame goes out once to
+    # EVERY tuned running recipient in that frame - what the code does for one recipient must not leak into the next one's copy
+    # (generator and per-recipient oracle shared with C02 / C18)
+    from . import C02 as _C02
+    fan = [_C02.fanout_script(rng) for _ in range(40 if ctx.tier == "quick" else 1500)]
+    freals = SC.run_scripts(ctx, "fanout-session", fan)
+    for s, r in zip(fan, freals):
+        _C02.oracle(ctx, s, r)
     # thread schedules on the real objects
     cases = race_cases(ctx)
     obs = {}
